@@ -15,7 +15,8 @@ Tie to the code:
   * call history: ONE RadialNumericalBH re-used for sequences of 2-4 boreholes (as GHE re-uses
     `self.radial_numerical`), incl. steps engineered to keep R_f and R_b* bit-identical while heat
     capacities / height change; every element must be bit-identical to a fresh object and satisfy the
-    predicate; two probes (soil conductivity, radii) record what `partial_init` does not refresh;
+    predicate; steps changing soil conductivity / radii with identical resistances are regressions for
+    the repaired `partial_init` (it used to keep the first exchanger's c_0 and grid geometry);
   * the 0.5 % finer-mesh claim: differential run of the Float model with 2x cells and dt/4
     (level translation_validation, reported in the evidence; not a theorem).
 """
@@ -38,7 +39,7 @@ LEVEL = "proof"
 MANIFEST = {
     "text": "C10 — short-time radial g-function: cells tile the radius, fluid thermal mass, layer resistances sum to R_b, "
             "energy balance (stored = injected - far-field leak) and discrete maximum principle (monotone, g_bhw >= 0, g >= -2 pi k R_b) "
-            "proved for the model; model tied to the code by a Float differential run; 0.5 % finer-mesh agreement as translation validation",
+            "proved for the temperatures the model's own loop computes (its elimination is proved exact; coefficient positivity derived from valid inputs); model tied to the code by a Float differential run; 0.5 % finer-mesh agreement as translation validation",
     "note": "Float rounding is not reasoned about: theorems are over ordered fields / the reals for the same polymorphic definitions; "
             "LAPACK dgtsv enters as 'returns the solution of the tridiagonal system'",
     "technique": "Lean 4 theorems about a scalar-polymorphic model + Float instantiation run against numpy/LAPACK + independent Fraction oracle",
@@ -563,7 +564,7 @@ def worker(c):
 # GHE keeps ONE RadialNumericalBH (`self.radial_numerical`) and calls calc_sts_g_functions(self.bhe_eq) on it again and
 # again with changing exchangers.  A history is a sequence of 2-4 boreholes solved on one object; every element must be
 # bit-identical to the same borehole solved on a fresh object (and satisfy the usual predicate).
-HIST_VARS = ["capacities", "capacities", "height", "grout_pipe_k", "flow_fluid", "same", "back", "everything_but_soil_k_and_radii"]
+HIST_VARS = ["capacities", "capacities", "height", "grout_pipe_k", "flow_fluid", "same", "back", "everything_but_soil_k_and_radii", "soil_k", "radii"]
 
 
 def other_in(rng, v, lo, hi):
@@ -594,9 +595,9 @@ def vary_real(rng, base, first, var):
         for k, v in vary_real(rng, vary_real(rng, vary_real(rng, vary_real(rng, base, first, "capacities"), first, "height"),
                                             first, "grout_pipe_k"), first, "flow_fluid").items():
             c[k] = v
-    elif var == "soil_k":         # probe: c_0 = 2 pi k_soil is computed in __init__ only
+    elif var == "soil_k":         # regression (fix 6f0d501): c_0 = 2 pi k_soil used to be computed in __init__ only
         c["k_soil"] = _round(base["k_soil"] * rng.choice([0.5, 1.5]), 4)
-    elif var == "radii":          # probe: radii / thicknesses are computed in __init__ only
+    elif var == "radii":          # regression (fix 6f0d501): radii / thicknesses used to be computed in __init__ only
         c["r_b"] = _round(min(0.12, base["r_b"] * 1.15), 4)
     return c
 
@@ -679,12 +680,10 @@ def history_worker(c):
                     j = int(np.argmax(np.abs(fresh[k] - got[k]))) if fresh[k].shape == got[k].shape else -1
                     diffs.append(f"{k}[{j}] {float(got[k][j])!r} vs fresh {float(fresh[k][j])!r}")
         if diffs:
-            key = {"soil_k": "history-stale-c0-after-soil-k-change", "radii": "history-stale-geometry-after-radius-change"}.get(
-                c.get("probe"), "history-differs-from-fresh-object")
-            out["fails"].append((key, f"borehole #{i} ({var}) of a sequence solved on ONE RadialNumericalBH differs from the same borehole "
+            out["fails"].append(("history-differs-from-fresh-object", f"borehole #{i} ({var}) of a sequence solved on ONE RadialNumericalBH differs from the same borehole "
                                       f"on a fresh object: " + "; ".join(diffs[:5])))
-        # the usual predicate on what the re-used object produced (not for the probes: their staleness is reported above)
-        if not c.get("probe") and not sub.get("degenerate") and "cells0" in gc and "inputs" in got and "counts" in got:
+        # the usual predicate on what the re-used object produced
+        if not sub.get("degenerate") and "cells0" in gc and "inputs" in got and "counts" in got:
             fails, metrics = predicate(sub, got)
             out["fails"] += [(k if k.startswith("far-field-leak") else "history:" + k, f"borehole #{i} ({var}) on a re-used object: {w}") for k, w in fails]
             for k in ("balance", "tile_edges", "fluid_mass_rel", "layers_rel"):
@@ -728,7 +727,7 @@ def run(ctx: core.Ctx):
     ]
     ctx.assumptions += [
         "theorems are over ordered fields / the reals for the same definitions the Float run executes; `log` is any function with log(a/b)=log a - log b on positives where needed",
-        "the energy-balance and maximum-principle theorems are about any exact solution of the assembled tridiagonal system (LAPACK's solve is compared, not verified)",
+        "the model's own tridiagonal elimination is proved exact (strict diagonal dominance from positive coefficients, which follow from valid inputs), so energy balance / maximum principle hold for what the model computes over an ordered field; LAPACK's solve of the same system is compared with it (1e-7), not verified",
         "the 0.5 % finer-mesh agreement is a differential run (translation_validation), not a theorem",
         "monotonicity / sign checks on the implementation allow 1e-10 K (rounding of a solve with entries ~20 K)",
     ]
@@ -759,7 +758,7 @@ def run(ctx: core.Ctx):
         n_hr, n_hs, n_pr = (12, 8, 2) if quick else (160, 90, 8)
         hmax = 200.0 if quick else 400.0
         hist = [gen_history(rng, stub=False, h_max=hmax) for _ in range(n_hr)] + [gen_history(rng, stub=True, h_max=hmax) for _ in range(n_hs)]
-        # probes of what partial_init does not refresh (soil conductivity -> c_0, radii -> grid geometry)
+        # regressions for fix 6f0d501 (partial_init now refreshes c_0 and the grid geometry): always present
         for pr in ("soil_k", "radii"):
             hist += [gen_history(rng, stub=(i % 2 == 1), probe=pr, h_max=120.0) for i in range(n_pr)]
         cases = cases + fine + real + stubs + hist
